@@ -334,3 +334,58 @@ Proof.
     + destruct (memb d m2) eqn:M2; [|reflexivity]. exfalso.
       apply Hm2 in M2. destruct M2 as [_ M2]. rewrite F1b, Hsb in M2. discriminate.
 Qed.
+
+(** ** Completeness for every copying replicator stack *)
+Lemma rmultiple_one r : copying r = true -> forall d s c s1, fl s = [] -> memb d (sa s) = false ->
+  rmultiple r [d] s = (c, s1) ->
+  fl s1 = [] /\ (if memb d (sb s) then c = 0 /\ memb d (sa s1) = true else c = 5).
+Proof.
+  induction r as [| |r IH|r IH]; cbn [copying]; intros Hc d s c s1 Hf Ha H; try discriminate.
+  - cbn [rmultiple local_multiple] in H.
+    destruct (bget BB d s) as [b s0] eqn:G. destruct (bput BA d b s0) as [c0 s2] eqn:P.
+    destruct (copy_step _ _ _ _ _ _ G P) as (_ & C0 & Cf). destruct (Cf Hf) as (Hf2 & Hcv & _).
+    destruct (c0 =? 0) eqn:Ec; injection H as <- <-.
+    + apply Z.eqb_eq in Ec. split; [exact Hf2|]. destruct (memb d (sb s)); [|rewrite Ec in Hcv; discriminate].
+      split; [reflexivity|]. apply C0. exact Ec.
+    + split; [exact Hf2|]. destruct (memb d (sb s)); [rewrite Hcv in Ec; discriminate|exact Hcv].
+  - cbn [rmultiple] in H. destruct (bfm BA [d] s) as [[c0 miss] s0] eqn:F. apply bfm_spec in F.
+    destruct F as (Fa & Fb & F0 & Ff). destruct (Ff Hf) as [Hf0 ->]. specialize (F0 eq_refl).
+    cbn [contents filter] in F0. rewrite Ha in F0. cbn [negb] in F0. subst miss. cbn [Z.eqb negb] in H.
+    destruct (rmultiple r [d] s0) as [c2 s2] eqn:R.
+    assert (Ha0 : memb d (sa s0) = false) by (rewrite Fa; exact Ha).
+    destruct (IH Hc d s0 c2 s2 Hf0 Ha0 R) as [Hf2 Hres]. rewrite Fb in Hres.
+    destruct (c2 =? 0) eqn:Ec; injection H as <- <-; split; try exact Hf2.
+    + destruct (memb d (sb s)); [|rewrite Hres in Ec; discriminate]. split; [reflexivity|apply Hres].
+    + destruct (memb d (sb s)); [destruct Hres as [Hz _]; rewrite Hz in Ec; discriminate|exact Hres].
+  - cbn [rmultiple] in H. eapply IH; eassumption.
+Qed.
+
+Lemma deco_single r' d s0 : copying r' = true -> fl s0 = [] -> memb d (sa s0) = false ->
+  fst (let (c, s1) := rmultiple r' [d] s0 in if c =? 0 then sink_get_nf d s1 else (c, s1)) =
+  if memb d (sb s0) then 0 else 5.
+Proof.
+  intros Hc Hf0 Ha0. destruct (rmultiple r' [d] s0) as [c s1] eqn:R.
+  destruct (rmultiple_one r' Hc d s0 c s1 Hf0 Ha0 R) as [Hf1 Hres].
+  destruct (memb d (sb s0)).
+  - destruct Hres as [-> Hin]. cbn [Z.eqb]. unfold sink_get_nf.
+    destruct (bget BA d s1) as [b2 s2] eqn:G2. apply bget_spec in G2. destruct G2 as (_ & _ & _ & G2f).
+    destruct (G2f Hf1) as [_ Hb2]. cbn [contents] in Hb2. rewrite Hin in Hb2. subst b2. reflexivity.
+  - subst c. reflexivity.
+Qed.
+
+Theorem cget_complete_copying r d s : (copying r = true \/ r = RNoop) -> fl s = [] ->
+  fst (cget r d s) = if memb d (sa s) || memb d (sb s) then 0 else 5.
+Proof.
+  intros Hr Hf.
+  assert (Hdeco : forall r', copying r' = true -> rsingle r' d = (fun s0 => let (c, s1) := rmultiple r' [d] s0 in if c =? 0 then sink_get_nf d s1 else (c, s1)) ->
+                  fst (cget r' d s) = if memb d (sa s) || memb d (sb s) then 0 else 5).
+  { intros r' Hc Hrs. unfold cget. destruct (bget BA d s) as [b s0] eqn:G.
+    apply bget_spec in G. destruct G as (Ga & Gb & _ & Gf). destruct (Gf Hf) as [Hf0 Hb]. cbn [contents] in Hb.
+    subst b. destruct (memb d (sa s)) eqn:Ma; cbn [orb]; [reflexivity|].
+    change (5 =? 5) with true. cbn iota. rewrite Hrs. rewrite <- Gb. apply deco_single; [exact Hc|exact Hf0|rewrite Ga; exact Ma]. }
+  destruct r as [| |r|r].
+  - apply cget_complete; auto.
+  - apply cget_complete; auto.
+  - destruct Hr as [Hc|Hc]; [|discriminate]. apply Hdeco; [exact Hc|reflexivity].
+  - destruct Hr as [Hc|Hc]; [|discriminate]. apply Hdeco; [exact Hc|reflexivity].
+Qed.
